@@ -9,3 +9,4 @@ pub mod json;
 pub mod instr_sx;
 pub mod corpus;
 pub mod gen_prog;
+pub mod rowcol;
